@@ -21,7 +21,7 @@ fn derive_names(attrs: &[syn::Attribute]) -> Vec<String> {
     out
 }
 
-fn visit(items: &[syn::Item], n: &mut [usize; 4]) {
+fn visit(items: &[syn::Item], n: &mut [usize; 4], dump: bool) {
     for it in items {
         let (attrs, tokens) = match it {
             syn::Item::Struct(s) => (&s.attrs, {
@@ -41,7 +41,7 @@ fn visit(items: &[syn::Item], n: &mut [usize; 4]) {
             }),
             syn::Item::Mod(m) => {
                 if let Some((_, inner)) = &m.content {
-                    visit(inner, n);
+                    visit(inner, n, dump);
                 }
                 continue;
             }
@@ -53,6 +53,10 @@ fn visit(items: &[syn::Item], n: &mut [usize; 4]) {
         }
         let Ok(ast) = syn::parse2::<syn::DeriveInput>(tokens) else { continue };
         for name in names {
+            if dump {
+                println!("{}", serde_json::json!({"derive": name, "item": ast.to_token_stream().to_string()}));
+                continue;
+            }
             if let Some(d) = find_derive(&name) {
                 match expand_ast(d, &ast) {
                     Outcome::Ok(_) => n[0] += 1,
@@ -67,14 +71,17 @@ fn visit(items: &[syn::Item], n: &mut [usize; 4]) {
 
 pub fn main(args: &[String]) -> i32 {
     let mut n = [0usize; 4];
-    for path in args {
+    let dump = args.iter().any(|a| a == "--dump");
+    for path in args.iter().filter(|a| *a != "--dump") {
         let Ok(text) = std::fs::read_to_string(path) else { continue };
         // function bodies may hold items too (C02 puts types inside modules only), modules are enough here
         match syn::parse_file(&text) {
-            Ok(f) => visit(&f.items, &mut n),
+            Ok(f) => visit(&f.items, &mut n, dump),
             Err(e) => eprintln!("cover: {path}: {e}"),
         }
     }
-    println!("{}", serde_json::json!({"ok": n[0], "err": n[1], "panic": n[2], "parsefail": n[3]}));
+    if !dump {
+        println!("{}", serde_json::json!({"ok": n[0], "err": n[1], "panic": n[2], "parsefail": n[3]}));
+    }
     0
 }
